@@ -120,7 +120,14 @@ fn check(id: &str, tier: Tier) -> i32 {
     let findings = load_findings();
     let mut known_seen = Vec::new();
     let mut new_viol = Vec::new();
+    let mut undecided = Vec::new();
     for (key, (count, v)) in &rep.violations {
+        // a failing oracle that is not this property's (or a harness step that could not be set up)
+        // is not an alarm of this property: the check cannot decide on this tree
+        if key.starts_with("out-of-scope:") || key.contains(":harness") || key.starts_with("harness") {
+            undecided.push((key.clone(), *count, v.what.clone()));
+            continue;
+        }
         let known = findings.iter().find(|f| {
             f["property"] == id && f["status"] == "known" && f["key"].as_str() == Some(key.as_str())
         });
@@ -162,6 +169,10 @@ fn check(id: &str, tier: Tier) -> i32 {
 
     // vacuity guards: a check whose interesting situations were never reached proves nothing.
     let mut machinery_fail = false;
+    for (key, count, what) in &undecided {
+        println!("UNDECIDED property={} [{}] x{}: an oracle outside this property's scope failed first (the owning property's check reports it): {}", id, key, count, what);
+        machinery_fail = true;
+    }
     for (g, ok) in &rep.guards {
         if !ok {
             eprintln!("machinery: vacuity guard not reached: {}", g);
